@@ -55,6 +55,16 @@ def DAYSET_SENTINEL():
     return {Days.SUNDAY, Days.MONDAY}
 
 
+def _disturb(resp):
+    """A caller modifies the result it was given (where the result is mutable at all)."""
+    for sch in list(resp.schedules):
+        if hasattr(sch.days, "clear"):
+            sch.days.clear()
+            sch.days.update(DAYSET_SENTINEL())
+    if hasattr(resp.schedules, "clear"):
+        resp.schedules.clear()
+
+
 def expect_record(zone, rec):
     slot, enabled, mask, state = rec[0], rec[1], rec[2], rec[3]
     start, end = struct.unpack("<II", rec[4:12])
@@ -174,10 +184,7 @@ def run_date(job, res):
             nlist[0] += 1
             if ok and records and nlist[0] % 8 == 0:
                 # what a caller does with the parsed result must not change what the next listing returns
-                for sch in list(out[1].schedules):
-                    sch.days.clear()
-                    sch.days.update(DAYSET_SENTINEL())
-                out[1].schedules.clear()
+                _disturb(out[1])
                 case2 = dict(case, kind="relist")
                 if not judge_listing(res, case2, zone, records, run.list(records)):
                     res.counters["relist_violations"] += 1
@@ -260,10 +267,7 @@ def replay(case):
             records = [bytes.fromhex(r) for r in case["records"]]
             out = run.list(records)
             if case["kind"] == "relist" and out[0] == "ok":
-                for sch in list(out[1].schedules):
-                    sch.days.clear()
-                    sch.days.update(DAYSET_SENTINEL())
-                out[1].schedules.clear()
+                _disturb(out[1])
                 out = run.list(records)
             judge_listing(res, case, case["zone"], records, out)
         else:
